@@ -349,6 +349,21 @@ def run(ctx):
         r4.check(src_ok, f"{hcon}::task_enqueued.tid", "the answered id is the value returned by enqueue_task",
                  "the id sent back to the client is not the id enqueue_task returned", loc(br, hc.module))
 
+    from .localpool import rule_enqueue_registers
+    rule_enqueue_registers(ctx, r3)
+    from .evalhelpers import local_client_witness
+    _n, cdiffs, cunsup = local_client_witness(ctx)
+    if cunsup is None:
+        r4.check(not cdiffs, "src/gwf/backends/local.py::Client::requests", "the client's submit/cancel requests carry the fields the server consumes and return the server's id",
+                 "; ".join(cdiffs[:2]), cli.where)
+    from .evalhelpers import server_session_witness
+    n_w, diffs, unsup = server_session_witness(ctx)
+    if unsup is None:
+        r4.check(not diffs, f"{hcon}::session", f"{n_w} evaluated sessions (requests, EOF, shutdown, unknown kind): every request reaches the scheduler method of its kind with its fields, "
+                 "every answer carries the scheduler's value", "; ".join(diffs[:3]), hc.where)
+    else:
+        r4.info(f"{hcon}::session", f"session evaluation not possible ({unsup}); decided by the structural rules above")
+
     # ---------------- R5 EOF terminates the handler
     r6 = ctx.rule("R6", "one client cannot stall the others: nothing shared between connections is held across a client-paced await")
     rule_no_shared_lock_across_client_io(ctx, r6)
